@@ -114,6 +114,10 @@ def parseFrameToks (m : String) : Option Msg :=
     match idx.toNat?, plen.toNat?, b.toNat?, l.toNat? with
     | some idx, some plen, some b, some l => some (.piece idx b (((content idx plen).drop b).take l))
     | _, _, _, _ => none
+  | ["px", idx, plen, b, l, src] =>
+    match idx.toNat?, plen.toNat?, b.toNat?, l.toNat?, src.toNat? with
+    | some idx, some plen, some b, some l, some src => some (.piece idx b (((content idx plen).drop src).take l))
+    | _, _, _, _, _ => none
   | toks => msgOfToks toks
 
 def parseEv (e : String) : Option SEv :=
